@@ -324,6 +324,9 @@ int replay_main(std::istream &in, Fn &&run) {
 void *operator new(std::size_t sz) {
     void *p = malloc(sz ? sz : 1);
     if (!p) throw std::bad_alloc();
+#ifdef COCLS_VERIF_HOOKS_H_
+    if (cocls_verif::internal_allocs) return p;
+#endif
     if (!rp::alloc_stats::paused) {
         rp::alloc_stats::news++;
         rp::alloc_stats::g_news.fetch_add(1, std::memory_order_relaxed);
